@@ -92,6 +92,11 @@ def quick_agree(f, m, out, where):
             out.append(("C05:contents-differ", "%s: as_integer %#x model %#x (w=%d)" % (where, n, m.n, m.w)))
         if not (isinstance(n, int) and 0 <= n < (1 << m.w)):
             out.append(("C05:value-out-of-range", "%s: %r not in [0, 2^%d)" % (where, n, m.w)))
+        if hasattr(f, "is_reserved"):
+            # ForwardFrame docstring: 20 and 32 data bits are reserved, anything but 16/20/24/32 is proprietary
+            if f.is_reserved is not (m.w in (20, 32)) or f.is_proprietary is not (m.w not in (16, 20, 24, 32)):
+                out.append(("C05:forward-frame-length-class", "%s: %d-bit forward frame reports is_reserved=%r "
+                            "is_proprietary=%r" % (where, m.w, f.is_reserved, f.is_proprietary)))
     except Exception as e:  # noqa
         out.append(("C05:observer-raised", "%s: %r" % (where, e)))
 
@@ -288,7 +293,7 @@ NON_FRAMES = [5, None, "ab", b"\x01\x02", [1, 0]]
 def ops_strategy():
     sel = st.integers(0, 10 ** 6)
     val = st.one_of(st.just("max"), st.just(0), st.just("top"), st.integers(0, 2 ** 256))
-    width = st.one_of(st.integers(1, 16), st.sampled_from([7, 8, 9, 15, 16, 17, 24, 25, 31, 32, 33, 63, 64, 65, 255, 256]),
+    width = st.one_of(st.integers(1, 16), st.sampled_from([7, 8, 9, 15, 16, 17, 19, 20, 21, 24, 25, 31, 32, 33, 63, 64, 65, 255, 256]),
                       st.integers(1, 256))
     op = st.one_of(
         st.tuples(st.just("new"), width, val),
